@@ -185,7 +185,15 @@ def step (s : S) (line : String) : S × String :=
     let cl := msaSingleLinkage s.m (argBits ws "maxid") rows
     let asg := assignment cl rows.length
     let pre := (argNat? ws "pre").getD 0
-    (s, s!"ok nc={cl.length} c={if pre == 2 then "-" else nlist asg} nin={if pre == 3 then "-" else nlist (clusterSizes asg cl.length)}")
+    -- modes=<c><nin><nc>: 0 = not requested, 1 = allocated by the callee, 2 = provided by the caller (pre=0..3: 111 221 011 101)
+    let md := ((arg? ws "modes").getD (["111", "221", "011", "101"].getD pre "111")).toList
+    let dg := fun (k : Nat) => (md.getD k '9').toNat - 48
+    if md.length != 3 || dg 0 > 2 || dg 1 > 2 || dg 2 > 1 then (s, "bad-op") else
+    let cm := dg 0; let nm := dg 1; let ncm := dg 2
+    let sizes := nlist (clusterSizes asg cl.length)
+    -- the number of clusters is known to the caller from *opt_nc, else from the assignments, else from its own sentinel-filled array
+    let ninS := if nm == 0 then "-" else if ncm == 1 || cm != 0 || nm == 2 then sizes else "?"
+    (s, s!"ok nc={if ncm == 1 then toString cl.length else "-"} c={if cm == 0 then "-" else nlist asg} nin={ninS}")
   | "cluster" :: _ =>
     match argNat? ws "n", arg? ws "adj" with
     | some n, some adj =>
